@@ -86,7 +86,7 @@ def run(chk):
     t0 = time.time()
     # ---- S->C: simulated behaviours
     plan = ([('G03_sim.cfg', 150, 40, 1), ('G03_sim_ctrl.cfg', 60, 40, 1), ('G03_sim_acc.cfg', 60, 40, 1)] if not thorough else
-            [('G03_sim.cfg', 3000, 60, 4), ('G03_sim_ctrl.cfg', 1200, 60, 2), ('G03_sim_acc.cfg', 1200, 60, 2)])
+            [('G03_sim.cfg', 1800, 60, 4), ('G03_sim_ctrl.cfg', 600, 60, 2), ('G03_sim_acc.cfg', 600, 60, 2)])
     for cfg, num, depth, batches in plan:
       triallife.replay_simulated(chk, cfg, num, depth, chk.seed, hits, batches=batches)
     chk.notes['wall_simulated_s'] = round(time.time() - t0, 1)
